@@ -42,7 +42,7 @@ ASSUMPTIONS = [
 
 QUICK = ["BufSize_quick.cfg", "BufSize_quick_steady.cfg", "BufSize_quick_pause.cfg", "BufSize_quick_p1.cfg", "BufSize_quick_files.cfg"]
 THOROUGH = ["BufSize_thorough.cfg", "BufSize_thorough_steady.cfg", "BufSize_thorough_p1.cfg", "BufSize_thorough_files.cfg",
-            "BufSize_thorough_caps5.cfg", "BufSize_quick_pause.cfg"]
+            "BufSize_thorough_caps.cfg", "BufSize_quick_pause.cfg"]
 MUTANTS = {"BufSize_mut_noMaxTest.cfg": {"ShrinkOnlyWhenSlow", "DoubleOnlyWhenAllowed", "SizeInRange"},
            "BufSize_mut_noFactor2.cfg": {"NeverRejectedByReceiver", "NothingQueuedIsRejected"},
            "BufSize_mut_noFloor.cfg": {"SizeInRange", "ShrinkOnlyWhenSlow"}}
